@@ -10,7 +10,8 @@ trap "git -C /repo worktree remove --force $WT >/dev/null 2>&1" EXIT
 cd $WT
 D=$(mktemp -d /tmp/confirm_demo.XXXX)
 sed "s#$MUTWT#$WT#g" $SRC/demo.c > $D/demo.c
-build() { gcc $CFL -I$WT/include $D/demo.c $WT/src/static.c -lpthread -o $D/$1 2>$D/$1.build.log; }
+# NOSTATIC=1: the demo includes src/static.c itself (it redefines an internal macro first)
+build() { if [ -n "$NOSTATIC" ]; then gcc $CFL -I$WT/include -I$WT/src -I$WT $D/demo.c -lpthread -o $D/$1 2>$D/$1.build.log; else gcc $CFL -I$WT/include $D/demo.c $WT/src/static.c -lpthread -o $D/$1 2>$D/$1.build.log; fi; }
 build demo_orig || { echo "demo does not build on clean tree"; tail -5 $D/demo_orig.build.log; exit 2; }
 ( cd $D && timeout 300 ./demo_orig >$D/orig.out 2>&1 ); RO=$?
 git apply $SRC/patch.diff || { echo "patch does not apply to HEAD"; exit 2; }
